@@ -12,7 +12,7 @@ from ..common import sig_key
 from ..probes import PROBES
 
 LEVEL = "exploration"
-RULE = "Nested differentiation expressions: depth 2 and 3 enumerate exhaustively (operator per level from {grad, deriv, elementwise_grad, jacobian, make_vjp+1, make_jvp+1}) x (subset of enclosing variables each inner body mentions) x 3 templates (inner result scaled / inside sin / used twice) with the inner evaluation point depending on enclosing variables; depth 4 and vector-valued inner variables (elementwise bodies, sum-reduced) are sampled; depth 2 (exhaustive) and depth 3 (sampled) additionally with every level evaluated in a worker thread started and joined inside the enclosing traced function. Reference: independent symbolic differentiator. Non-trivial iff the symbolic reference is finite and non-zero and the inner body mentions its own variable non-linearly. distinct = distinct (depth, operator sequence, mention masks, template, vector flag)."
+RULE = "Nested differentiation expressions: depth 2 and 3 enumerate exhaustively (operator per level from {grad, deriv, elementwise_grad, jacobian, make_vjp+1, make_jvp+1}) x (subset of enclosing variables each inner body mentions) x 3 templates (inner result scaled / inside sin / used twice) with the inner evaluation point depending on enclosing variables; depth 4 and vector-valued inner variables (elementwise bodies, sum-reduced) are sampled; depth 2 (exhaustive) and depth 3 (sampled) additionally with every level evaluated in a worker thread started and joined inside the enclosing traced function, and with array-valued variables at every level (elementwise operator counterparts; inner bodies close over enclosing arrays; reference per component). Reference: independent symbolic differentiator. Non-trivial iff the symbolic reference is finite and non-zero and the inner body mentions its own variable non-linearly. distinct = distinct (depth, operator sequence, mention masks, template, vector flag)."
 ASSUMPTIONS = ["expression grammar is the O-sym op set (+,-,*,/,sin,cos,exp,tanh,pow); random sub-expressions are drawn per case", "reference evaluated in float64; tolerance 1e-9 relative"]
 EXHAUSTIVE = {"C08": "depth 2 and depth 3: all 6^depth operator assignments x all mention subsets x 3 templates"}
 
@@ -41,6 +41,75 @@ def ag_ops():
         "vec:grad_sum": lambda f, z: grad(lambda t: anp.sum(f(t)))(z),
     }
     return ops
+
+
+def allvec_ops():
+    """Every level's variable is a vector and every operator its elementwise counterpart (all bodies are
+    elementwise, so component i of the result is the scalar nested derivative at component i): inner bodies
+    close over ARRAY-valued enclosing variables."""
+    import autograd.numpy as anp
+    from autograd import elementwise_grad, grad, jacobian, make_jvp, make_vjp
+
+    return {
+        "grad": lambda f, z: grad(lambda t: anp.sum(f(t)))(z),
+        "deriv": lambda f, z: make_jvp(f)(z)(onp.ones(onp.shape(z)))[1],
+        "egrad": lambda f, z: elementwise_grad(f)(z),
+        "jacobian": lambda f, z: anp.diag(jacobian(f)(z)),
+        "vjp1": lambda f, z: make_vjp(f)(z)[0](onp.ones(onp.shape(z))),
+        "jvp1": lambda f, z: make_jvp(f)(z)(onp.ones(onp.shape(z)))[1],
+    }
+
+
+def run_allvec(res, spec, anp):
+    rng = onp.random.Generator(onp.random.PCG64(spec["eseed"]))
+    body = build(rng, 0, spec["depth"], spec["ops"], spec["masks"], spec["template"], const_at=2 if spec.get("const_at") else 0)
+    pts = [round(float(rng.uniform(0.3, 1.2)) * float(rng.choice([-1, 1])), 4) for _ in range(3)]
+    sig = {"engine": "nesting", "depth": spec["depth"], "ops": spec["ops"], "masks": spec["masks"], "template": spec["template"], "allvec": True}
+    case = {"spec": spec}
+    res["evaluations"] += 1
+    if spec.get("const_at"):
+        sig["const_at"] = True
+    refs = []
+    for ci, p in enumerate(pts):
+        S.reset_memo()
+        try:
+            r = float(S.evaluate(S.resolve(("D", spec["ops"][0], "x0", _map_consts(body, lambda t: t[ci]), S.C(p))), {}))
+        except Exception as e:
+            res["not_judged"]["oracle_error:" + type(e).__name__] = res["not_judged"].get("oracle_error:" + type(e).__name__, 0) + 1
+            return
+        if not onp.isfinite(r) or S.max_intermediate() > 1e4:
+            res["not_judged"]["ill_scaled"] = res["not_judged"].get("ill_scaled", 0) + 1
+            return
+        refs.append(r)
+    ops = allvec_ops()
+    show = lambda: S.show(("D", spec["ops"][0], "x0", _map_consts(body, lambda t: t[0]), S.C(pts[0])))[:600]
+    body = _map_consts(body, lambda t: onp.array(t))
+    try:
+        with warnings.catch_warnings():
+            warnings.simplefilter("ignore")
+            got = ops[spec["ops"][0]](lambda x0: S.eval_autograd(body, {"x0": x0}, anp, ops), onp.array(pts))
+    except Exception as e:
+        s = dict(sig, symptom="exception:" + type(e).__name__)
+        res["violations"].append({"sig": s, "case": case, "detail": traceback.format_exc()[-500:] + "\nexpr (vector form of): " + show()})
+        return
+    if common.find_boxes(got):
+        res["violations"].append({"sig": dict(sig, symptom="tracer_leak"), "case": case, "detail": show()})
+        return
+    g = onp.asarray(got)
+    if g.shape != (3,) or g.dtype.kind != "f":
+        res["violations"].append({"sig": dict(sig, symptom="wrong_shape"), "case": case, "detail": "result %r dtype %s; expr %s" % (got, g.dtype, show())})
+        return
+    refs = onp.array(refs)
+    if not onp.all(onp.abs(g - refs) <= 1e-9 * (1.0 + onp.abs(refs))):
+        s = dict(sig, symptom="wrong_value")
+        res["violations"].append({"sig": s, "case": case, "detail": "autograd %r reference %r; vector form of %s" % (g.tolist(), refs.tolist(), show())})
+        res["judged"][sig_key(s)] = res["judged"].get(sig_key(s), 0) + 1
+        return
+    if not onp.any(refs != 0.0):
+        res["not_judged"]["trivial_zero"] = res["not_judged"].get("trivial_zero", 0) + 1
+        return
+    res["counters"]["allvec_nestings"] = res["counters"].get("allvec_nestings", 0) + 1
+    res["judged"][sig_key(sig)] = res["judged"].get(sig_key(sig), 0) + 1
 
 
 def threaded_ops(ops):
@@ -107,14 +176,28 @@ def innermost(rng, mentioned, own, independent=False):
     return ("+", ("+", e, e2), ("*", S.V(own), extra))
 
 
-def build(rng, level, depth, ops, masks, template, vec_level=None, vecop=None, indep=False):
+def _map_consts(e, fn):
+    """Rebuild an expression tree with every per-component constant ('c', (a, b, c)) replaced by fn(tuple)."""
+    if isinstance(e, tuple):
+        if len(e) == 2 and e[0] == "c" and isinstance(e[1], tuple):
+            return ("c", fn(e[1]))
+        return tuple(_map_consts(t, fn) for t in e)
+    if isinstance(e, list):
+        return [_map_consts(t, fn) for t in e]
+    return e
+
+
+def build(rng, level, depth, ops, masks, template, vec_level=None, vecop=None, indep=False, const_at=0):
+    """const_at: 0 = every inner evaluation point depends on the enclosing variable; 1 = points are plain
+    constants (the inner variable's value is then NOT a tracer of the enclosing level, while the body still
+    closes over enclosing variables); 2 = per-component constants (all-vector family)."""
     own = "x%d" % level
     enclosing = ["x%d" % i for i in range(level)]
     mask = masks[level] if level < len(masks) else (1 << level) - 1
     mentioned = [v for i, v in enumerate(enclosing) if (mask >> i) & 1] + [own]
     if level == depth - 1:
         return innermost(rng, mentioned, own, indep)
-    inner_body = build(rng, level + 1, depth, ops, masks, template, vec_level, vecop, indep)
+    inner_body = build(rng, level + 1, depth, ops, masks, template, vec_level, vecop, indep, const_at)
     scope = enclosing + [own]
     nxt = "x%d" % (level + 1)
     if vec_level == level + 1:
@@ -123,6 +206,10 @@ def build(rng, level, depth, ops, masks, template, vec_level=None, vecop=None, i
         N = ("Dvec", vecop, nxt, inner_body, ats, ws)
     else:
         at = ("+", ("*", S.C(round(float(rng.uniform(0.4, 0.9)), 3)), S.V(own)), rand_expr(rng, scope, 1))
+        if const_at == 1:
+            at = S.C(round(float(rng.uniform(0.4, 1.3)), 3))
+        elif const_at == 2:
+            at = ("c", tuple(round(float(t), 3) for t in rng.uniform(0.4, 1.3, size=3)))
         N = ("D", ops[level + 1], nxt, inner_body, at)
     E1 = ("+", S.V(own), rand_expr(rng, mentioned, 2))
     E2 = rand_expr(rng, mentioned, 2)
@@ -165,6 +252,21 @@ def enumerate_specs(tier, seed):
                 specs.append({"depth": 2, "ops": list(ops), "masks": [0, m1], "template": t, "threaded": True})
     for _ in range(300 if tier == "quick" else 3000):
         specs.append({"depth": 3, "ops": [str(o) for o in rng.choice(OPNAMES, size=3)], "masks": [0, int(rng.integers(0, 2)), int(rng.integers(0, 4))], "template": int(rng.integers(0, 3)), "threaded": True})
+    # array-valued variables at every level (inner bodies close over enclosing ARRAYS)
+    for ops in itertools.product(OPNAMES, repeat=2):
+        for m1 in range(2):
+            for t in range(3):
+                specs.append({"depth": 2, "ops": list(ops), "masks": [0, m1], "template": t, "allvec": True})
+    for _ in range(300 if tier == "quick" else 3000):
+        specs.append({"depth": 3, "ops": [str(o) for o in rng.choice(OPNAMES, size=3)], "masks": [0, int(rng.integers(0, 2)), int(rng.integers(0, 4))], "template": int(rng.integers(0, 3)), "allvec": True})
+    # inner evaluation points that are plain constants (inner variable not a tracer of the enclosing level)
+    extra = []
+    for sp in specs:
+        if sp["depth"] == 2 and not sp.get("vec_level") and not sp.get("indep"):
+            extra.append(dict(sp, const_at=True))
+        elif sp["depth"] == 3 and not sp.get("vec_level") and not sp.get("indep") and rng.uniform() < (0.15 if tier == "quick" else 0.5):
+            extra.append(dict(sp, const_at=True))
+    specs = specs + extra
     reps = 1 if tier == "quick" else 3
     out = []
     for r in range(reps):
@@ -176,11 +278,29 @@ def enumerate_specs(tier, seed):
 
 
 def run_spec(res, spec, ops, anp):
+    nprob = len(getattr(PROBES, "box_problems", ()))
+    try:
+        return _run_spec(res, spec, ops, anp)
+    finally:
+        probs = getattr(PROBES, "box_problems", [])
+        if len(probs) > nprob:
+            kind, detail = probs[nprob]
+            s = {"engine": "nesting", "depth": spec["depth"], "ops": spec["ops"], "masks": spec["masks"], "template": spec["template"], "allvec": bool(spec.get("allvec")), "symptom": "sanitizer:" + kind}
+            res["violations"].append({"sig": s, "case": {"spec": spec}, "detail": "%s (%d reports in this nesting)" % (detail, len(probs) - nprob)})
+            del probs[nprob:]
+        res["counters"]["boxes_checked"] = getattr(PROBES, "boxes_checked", 0)
+
+
+def _run_spec(res, spec, ops, anp):
+    if spec.get("allvec"):
+        return run_allvec(res, spec, anp)
     rng = onp.random.Generator(onp.random.PCG64(spec["eseed"]))
-    body = build(rng, 0, spec["depth"], spec["ops"], spec["masks"], spec["template"], spec.get("vec_level"), spec.get("vecop"), spec.get("indep", False))
+    body = build(rng, 0, spec["depth"], spec["ops"], spec["masks"], spec["template"], spec.get("vec_level"), spec.get("vecop"), spec.get("indep", False), 1 if spec.get("const_at") else 0)
     point = round(float(rng.uniform(0.3, 1.2)) * float(rng.choice([-1, 1])), 4)
     top = ("D", spec["ops"][0], "x0", body, S.C(point))
     sig = {"engine": "nesting", "depth": spec["depth"], "ops": spec["ops"], "masks": spec["masks"], "template": spec["template"], "vec": [spec.get("vec_level"), spec.get("vecop")], "indep": bool(spec.get("indep"))}
+    if spec.get("const_at"):
+        sig["const_at"] = True
     if spec.get("threaded"):
         sig["threaded"] = True
         ops = threaded_ops(ops)
@@ -256,6 +376,7 @@ def _new_result():
 def run_shard(pid, tier, seed, idx, n):
     common.setup_repo()
     PROBES.install(node=False, passes=False, acc=False, trace=True)
+    PROBES.install_box_sanitizer()
     import autograd.numpy as anp
 
     ops = ag_ops()
@@ -278,6 +399,7 @@ def run_shard(pid, tier, seed, idx, n):
 def replay(pid, case):
     common.setup_repo()
     PROBES.install(node=False, passes=False, acc=False, trace=True)
+    PROBES.install_box_sanitizer()
     import autograd.numpy as anp
 
     res = _new_result()
